@@ -13,6 +13,7 @@ import (
 const Rule = "generated Go source: struct shapes (1-12 fields of mixed size/alignment incl. zero-size, pointers, interfaces, arrays, named types, nested anonymous structs, value embedding to depth 3, pointer embedding, embedded named non-struct types, hseq/foreign tags, duplicate names and types across depths) " +
 	"x every focusable entry x derivation by name and by type through ForProduct1..9 / ForSpectrum1..9 / ForShape2..9 / hseq.New1..9 / FMap1..9 x value pools (boundary values, nil and shared pointers, maps, channels, interface values of varying dynamic type); " +
 	"oracle: the Go compiler's layout through ordinary selectors + byte-level snapshot of a canary guard around the struct (every byte outside the focus must be unchanged), resolution model for first-match / must-fail; " +
+	"plus function-local twin types of the same printed name, wide containers crossing 64/128/256 unfolded entries, foci and intermediates of 320-1100 bytes, and hand-over of pointer-holding values through the optic under back-to-back garbage collection (gccheckmark, clobberfree); " +
 	"a case is one derivation request (K optics) with all its value rounds; distinct by (struct shape, request); non-trivial = the shape has more than one field or the request must fail"
 
 const NoOffset = ^uintptr(0)
